@@ -1093,11 +1093,13 @@ func (r *Reconciler) updateTransactionStatus(ctx context.Context, transaction *c
 	log.Debug(transaction.Status)
 	err := r.transactions.UpdateStatus(ctx, transaction)
 	if err != nil {
-		if !errors.IsNotFound(err) && !errors.IsConflict(err) {
-			log.Errorf("Failed updating Transaction %s status", transaction.ID, err)
+		// A write conflict must stop the reconciliation (it is retried with what was read afresh): the callers go
+		// on to the next write as if this one had happened
+		if !errors.IsNotFound(err) {
+			log.Warnf("Failed updating Transaction %s status", transaction.ID, err)
 			return err
 		}
-		log.Warnf("Write conflict updating Transaction %s status", transaction.ID, err)
+		log.Warnf("Transaction %s not found", transaction.ID, err)
 		return nil
 	}
 	return nil
@@ -1107,11 +1109,12 @@ func (r *Reconciler) updateConfigurationStatus(ctx context.Context, configuratio
 	log.Debug(configuration.Status)
 	err := r.configurations.UpdateStatus(ctx, configuration)
 	if err != nil {
-		if !errors.IsNotFound(err) && !errors.IsConflict(err) {
-			log.Errorf("Failed updating Configuration '%s' status", configuration.ID, err)
+		// see updateTransactionStatus: a write conflict stops the reconciliation
+		if !errors.IsNotFound(err) {
+			log.Warnf("Failed updating Configuration '%s' status", configuration.ID, err)
 			return err
 		}
-		log.Warnf("Write conflict updating Configuration '%s' status", configuration.ID, err)
+		log.Warnf("Configuration '%s' not found", configuration.ID, err)
 		return nil
 	}
 	return nil
